@@ -118,7 +118,7 @@ def run(ctx):
                     continue       # handed on to another function of the crate (checked there if extern, else takes a typed pointer)
                 bad.append("%s at %s" % (c, t["sp"]))
         ctx.ob("R14-param", norm_fn(p), not bad, r["sp"], "raw parameters used through reviewed operations only" if not bad else "raw pointer parameter handed to %s" % bad)
-        for k, (bi, pl, o, sp) in util.ordinal_keys([d for d in raw_param_derefs(b, raw) if d[2][0] in raw and not d[2][1]], lambda d: "%s|deref of parameter %s" % (norm_fn(p), b.local_name(d[2][0]) or d[2][0])):
+        for k, (bi, pl, o, sp) in util.ordinal_keys([d for d in raw_param_derefs(b, raw) if d[2][0] in raw and not d[2][1]], lambda d: "%s|deref of parameter #%d" % (norm_fn(p), d[2][0])):
             n_deref += 1
             edges = null_false_edges(b, o[0])
             ok = bool(edges) and b.edges_dominate(edges, bi)
